@@ -126,7 +126,11 @@ def canon_token(t, pos=True):
     return ['T', t.type, v]
 
 
-class CanonTooBig(BaseException):
+class TooMany(Exception):
+    """more derivations / expansions / nodes than the oracle is willing to enumerate: the case is not judged"""
+
+
+class CanonTooBig(TooMany):
     """result tree beyond CANON_LIMIT nodes (explicit-ambiguity trees can be exponential): the case is not judged"""
 
 
